@@ -26,7 +26,7 @@ CHECKS = {
     "C07": ("model_checking",
             "TLA+ reference semantics with explicit trampoline (XrEval.Tramp) evaluated by TLC over recursion templates; replay",
             "Every template (self-call in tail position directly or through each documented carrier; in each non-tail position) x iteration count x {no limit, depth limits, recursion limits n-1,n,n+1} is evaluated by TLC and replayed; large counts (1e3..1e5) use the closed form that TLC checked against the machine for n <= 12.",
-            "Carrier set = if, if_error/2, bool and/or, Optional or; other implementation carriers (cast, map_or, tuple and, to_str) are not templated yet.",
+            "Carrier set = if, if_error/2 and /3, bool and/or, Optional or; non-carriers templated: arithmetic, neg, array item, condition, lambda, alias, inner function, assert, not, display, is_error; other implementation carriers (cast, map_or, tuple and, to_str of a str) are not templated.",
             "DESIGN.md 6 C07"),
     "C08": ("model_checking",
             "TLA+ reference semantics with limits (XrEval) over complete limit grids + XrRuntime trace validation + TLC model check of the counter machine",
@@ -35,38 +35,38 @@ CHECKS = {
             "DESIGN.md 6 C08"),
     "C11": ("model_checking",
             "TLA+ permission/effect machine (XrPerm over XrRuntime) enumerated by TLC for all plans x assignments; replay + trace validation",
-            "TLC runs each effect plan (display, debug, now, random/sample/shuffle/choices/distributions, regex, sleep; direct, wrapped, in closures, callbacks, lazy elements, defaults, stdlib wrappers, mixed orders) through XrRuntime's Perm/Effect actions for every enumerated permission assignment (allow/forbid/unset) and predicts the outcome and which injected dependency is touched; the interpreter runs with recording doubles and must agree; every trace (also of the shipped scripts) is validated by XrRuntime: an effect only after its own permission check passed.",
+            "TLC runs each effect plan (display, debug, now, random/sample/shuffle/choices/distributions, regex, sleep; direct, wrapped, in closures, callbacks, lazy elements, defaults, stdlib wrappers, mixed orders) through XrRuntime's Perm/Effect actions for every enumerated permission assignment (allow/forbid/unset) and predicts the outcome and which injected dependency is touched; the interpreter runs with recording doubles and must agree; every trace (also of the shipped scripts) is validated by XrRuntime: an effect only after its own permission check passed. Each plan is also run over several runtimes built from ONE compilation (allowing, refusing, allowing): every runtime decides by its own permission table.",
             "Writer/clock/rng are observed through doubles, regex-compile and sleep through hooks at the effect site; each plan is a hand-written template whose effect sites are known by construction.",
             "DESIGN.md 6 C11"),
     "C12": ("exploration",
             "TLC-walked token soups (XrSoup) + seeded mutations; TLA+ trace acceptors XrCompile (outcome is a function of the text) and XrRuntime (compile is silent)",
-            "Every text (TLC token soups over the grammar alphabet, mutations/splices of shipped scripts and book examples, literal spellings incl. over-long ones, nesting to 64, generated programs) is compiled three times in one process at shuffled positions; the compile/behaviour events are validated by the TLA+ acceptor XrCompile (same text => same outcome and behaviour; a panic or hang has no action) and the resource traces by XrRuntime (nothing between CompileBegin and CompileEnd).",
+            "Every text (TLC token soups over the grammar alphabet, mutations/splices of shipped scripts and book examples, literal spellings incl. over-long ones, nesting to 64, generated programs) is compiled three times in one process at shuffled positions, operator programs and a sample also as the first compilation of a fresh process; the compile/behaviour events are validated by the TLA+ acceptor XrCompile (same text => same outcome and behaviour; a panic or hang has no action) and the resource traces by XrRuntime (nothing between CompileBegin and CompileEnd).",
             "The text space is sampled; hangs are detected by a 20 s watchdog per compilation.",
             "DESIGN.md 6 C12"),
     "C03": ("model_checking",
             "TLA+ reference semantics (XrEval environments = lexical scoping; XrScope static forward rule) evaluated by TLC; replay",
-            "TLC evaluates scope-heavy generated programs (nesting to depth 4, captures at any distance, shadowing chains, escaping closures, defaults with output, recursion), hand-written scope shapes, every order of forward declaration / use / fulfilment (XrScope predicts MissingForwardImplementation), and all pairs of an identifier-spelling pool; the interpreter must reproduce bindings, results and output.",
+            "TLC evaluates scope-heavy generated programs (nesting to depth 4, captures at any distance, shadowing chains, escaping closures, defaults with output, recursion), hand-written scope shapes, every order of forward declaration / use / fulfilment (XrScope predicts MissingForwardImplementation), a family of forward uses 1-4 function levels deep with decoys, and all pairs of an identifier-spelling pool; the interpreter must reproduce bindings, results and output.",
             "Known findings: forward-dependent lambdas / aliases can be invoked before fulfilment (compiler tracks forward requirements for names only). Keyword-prefixed identifiers (truex) are rejected by the grammar in expression position and are outside the pool.",
             "DESIGN.md 6 C03"),
     "C04": ("model_checking",
-            "TLA+ type algebra (XrTypes: Assignable, CommonType, lattice laws) enumerated exhaustively by TLC; verdicts replayed into the compiler",
-            "TLC enumerates every (required, supplied) pair of the type universe, checks the lattice laws of the documented rules on it, and emits verdict and common type; the compiler must accept exactly the assignable pairs in each syntactic position (typed let, argument, field, variant payload, return, annotated element) and infer Sequence<CommonType> for two-element literals. Supplied callables are tried both as lambdas and as values of a declared callable type.",
+            "TLA+ type algebra (XrTypeAlg: Assignable, CommonType, Match/Subst; enumerations XrTypes, XrTypesCtx, XrTypesRec) enumerated exhaustively by TLC; verdicts and inferred types replayed into the compiler",
+            "TLC enumerates every (required, supplied) pair of the type universe, checks the lattice laws of the documented rules on it, and emits verdict and common type; the compiler must accept exactly the assignable pairs in each syntactic position (typed let, argument, field, variant payload, return, annotated element) and infer Sequence<CommonType> for two-element literals. Supplied callables are tried both as lambdas and as values of a declared callable type. XrTypesCtx repeats the enumeration inside a generic function body (opaque type parameters; typed let, argument and return of a nested function, call through a callable parameter, annotated element); XrTypesRec infers the types of constructor applications of regularly / nested / permuted recursive generic compounds and unions and their assignability to declared types; a family of same-named compounds in nested scopes must be kept apart.",
             "Supplied types whose canonical inhabitant does not have exactly that static type (probed through the compiler) are skipped; required types containing unknown are not expressible; callable joins are not compared.",
             "DESIGN.md 6 C04"),
     "C01": ("model_checking",
             "TLA+ shape relation (XrTypeAlg.HasShape) as trace acceptor XrShape over (static type, value) pairs recorded from the interpreter",
-            "Every value produced by an accepted program (generated core programs, token-level near-miss mutants, mutated shipped scripts and book examples, every static root-scope signature applied to several inhabitants per parameter and integer edge values; under no limits and tight limits) is recorded with the static type the compiler assigned and TLC checks HasShape(value, type) for each; a panic, crash or hang of an accepted program has no action and is reported.",
+            "Every value produced by an accepted program (generated core programs, token-level near-miss mutants, mutated shipped scripts and book examples, every static root-scope signature applied to several inhabitants per parameter and integer edge values, type-system corner programs - partial application, callable-returning adaptors, opaque type parameters, shadowed and recursive compounds - with holes filled from 7 value types; under no limits and tight limits) is recorded with the static type the compiler assigned and TLC checks HasShape(value, type) for each; a panic, crash or hang of an accepted program has no action and is reported.",
             "Values are observed through the verif_dump hook (lazy sequences forced for 12 elements); dynamic overloads and signatures without inhabitants are not swept; the program space is sampled.",
             "DESIGN.md 6 C01"),
     "C05": ("model_checking",
             "TLA+ overload resolution (XrOverload.Resolve + meta-properties) enumerated by TLC; each case replayed in several syntactic variants",
             "TLC enumerates candidate sets from a 16-signature pool x argument tuples, predicts Unique(tag)/AmbiguousOverload/NoOverload and checks on the model invariance under alpha-renaming, non-matching additions and scope level; every case is compiled and run in 3 variants (declaration order, renamed generics/variables, extra non-matching overload, candidates split over enclosing scope) and the tag returned by the body that ran must be the predicted one.",
-            "Candidate pool and argument tuples are fixed small universes (sets of <= 2 candidates quick, <= 3 thorough); stdlib-name collisions and dynamic lookup are hand-written templates.",
+            "Candidate pool and argument tuples are fixed small universes (sets of <= 2 candidates quick, <= 3 thorough); besides the three syntactic variants every other case is also rendered with its inner candidates two scopes below the outer ones (gap) and inside fn outer<G> with int renamed to the opaque parameter G (rigid); stdlib-name collisions and dynamic lookup are hand-written templates.",
             "DESIGN.md 6 C05"),
     "C15": ("model_checking",
-            "TLA+ list semantics of Sequence (XrSeq pool machine) walked by TLC -simulate; behaviours replayed",
+            "TLA+ list semantics of Sequence and Stack (XrSeq, XrStack pool machines) walked by TLC -simulate; behaviours replayed; TLA+ acceptor of representation trees (XrSeqRepr)",
             "TLC random-walks the XrSeq machine: each step applies one sequence operation to earlier bindings (so every composition of lazy representations arises) with indices at the interesting places, and records the result by plain list semantics; the interpreter must reproduce every binding, and all operands are read back at the end (persistence).",
-            "Simulation (sampled) rather than exhaustive; infinite sequences compared on a prefix; operations left open by the documentation are not generated; representation invariants of the variant tree are not yet checked.",
+            "Simulation (sampled) rather than exhaustive; infinite sequences compared on a prefix; operations left open by the documentation are not generated; every dumped representation tree (Empty / Array / Range / Map / Zip / Chain / Slice / Count) is accepted by XrSeqRepr (denoted length = reported length at every node, chain midpoints cumulative, slice bounds inside the source); XrStack covers push / tail / head / len / to_array(_reversed) / == / hash / seq + stack / add_rev / to_stack incl. stacks sharing element objects.",
             "DESIGN.md 6 C15"),
     "C16": ("model_checking",
             "TLA+ stream semantics of Generator (XrGen pool machine) walked by TLC -simulate; behaviours replayed, each generator consumed twice; needed-prefix (provenance) model in XrBound replayed against observed source evaluations",
@@ -74,14 +74,14 @@ CHECKS = {
             "Simulation is sampled; the look-ahead allowance is a chosen constant (the property says 'a constant per adaptor'); zip/flatten/product/with_count/enumerate are covered by the stream semantics but not by the provenance model.",
             "DESIGN.md 6 C16"),
     "C17": ("model_checking",
-            "TLA+ finite-map semantics over equivalence classes (XrMap pool machine, -simulate) + TLA+ acceptor of bucket tables (XrMapRepr)",
+            "TLA+ finite-map semantics over equivalence classes: XrMap pool machine (-simulate) and XrMapEx (every linear history of <= 5 set / <= 4 mapping updates, breadth-first by TLC, read back as version tries) + TLA+ acceptor of bucket tables (XrMapRepr)",
             "TLC random-walks histories of mapping and set operations for a (hash, equality) pair drawn per program (identity / congruence mod 2, 3; hash injective / mod 2 / mod 3 / constant) and records the abstract map over equivalence classes; the interpreter must reproduce every version (all read back at the end: persistence) and every bucket table it built is validated by XrMapRepr (length exact, keys in the bucket of their hash, keys pairwise inequivalent).",
-            "Keys are ints 0..5, values ints; iteration order is not compared; hashes outside [0, 2^64) are not in this machine.",
+            "Keys are ints 0..5 (0..2 / 0..3 in the exhaustive tries), values ints; iteration order is not compared; hashes outside [0, 2^64) are not in this machine; the exhaustive part is complete within its bounds (3 keys, colliding hash, quick; more configurations thorough) and also compares == / hash between equal-size versions.",
             "DESIGN.md 6 C17"),
     "C18": ("model_checking",
             "TLA+ code-point-sequence semantics of str (XrStr pool machine, -simulate) + literal encoder; behaviours replayed",
             "TLC random-walks string operations (len, get, substring, find with start, rfind, contains, starts/ends_with, partition, rpartition, strip family, replace, reverse, mul, lower, upper, cmp, chars, add, split, code_point, eq) over an abstract alphabet of 1-4 byte characters, a combining mark and case-expanding characters and records results by list semantics (positions are code-point positions); the interpreter must agree and the dual representation of every result (byte buffer + character table) must be exact. Literal spellings are generated by encoding a text (quote kind, fences, raw, escapes, formatted) and must denote that text; formatted strings must equal the join of their parts.",
-            "Negative string indices, empty needles, positions beyond the end and \\u{..} inside formatted strings are left open by the documentation and not generated.",
+            "Negative substring / find positions, empty needles, positions beyond the end and \\u{..} inside formatted strings are left open by the documentation and not generated (negative get indices are pinned by shipped script 089 and are generated).",
             "DESIGN.md 6 C18"),
     "C14": ("model_checking",
             "TLA+ arbitrary-precision oracle (XrBigInt: limb arithmetic + defining relations) as trace acceptor over integer-builtin calls; TLC checks the limb arithmetic itself (MC_XrBigInt)",
@@ -91,7 +91,7 @@ CHECKS = {
     "C19": ("model_checking",
             "TLA+ order/text/format semantics (XrOrder, laws checked by TLC) and stable-sort reference (XrSort) replayed; failing-comparator sweeps validated by XrRuntime",
             "TLC enumerates all typed value pairs of a 10-type nested universe with structural eq and lexicographic cmp (laws: equivalence, antisymmetry, transitivity, consistency, prefix rule checked on the model) and all well-formed integer format specifiers of the documented grammar x values; the interpreter's eq/ne/cmp/lt/le/gt/ge/to_str/format/hash must agree (equal => equal hash, hash in [0, 2^64)). Sort and order statistics are compared with the stable reference on inputs up to 200 elements; a comparator that raises a violation at the k-th comparison (every k) or an error on a poison element must give that outcome with accounting balanced (XrRuntime trace validation).",
-            "Float formatting with precision, Stack/Set/Mapping text, median/rank functions and '^' odd padding are not covered.",
+            "Float formatting with precision, Stack/Set/Mapping text, median/rank functions and '^' odd padding are not covered. Comparators failing on one ordered pair only are decided by a printing oracle (asked => that error; never asked => the stable permutation); stacks incl. shared element objects by XrStack; str format specifiers (width in characters) by XrOrder.",
             "DESIGN.md 6 C19"),
     "C20": ("model_checking",
             "TLA+ day-step calendar machine with closed forms proved against it by TLC (XrConv) replayed into date/julian_day/weekday/datetime/unix; fraction results as events accepted by the XrBigInt limb-arithmetic acceptor (cross-multiplication, lowest terms, positive denominator); inverse laws for radix text, code points and JSON replayed",
